@@ -297,7 +297,7 @@ Definition run_verify (o : oracles) (m2 m4 : list item) : outcome :=
 (* ---- add / remove pairing reply checks ------------------------------------ *)
 Inductive mgmt_op := IpAdd | IpRemove | BleAdd | BleRemove.
 
-Inductive mgmt_done := MDone.
+Inductive mgmt_done : Set := MDone.
 
 (* data.get(State, M2) != M2 -> InvalidError; then the Error item *)
 Definition mgmt_items (op : mgmt_op) (d : list item) : res errclass mgmt_done :=
